@@ -198,6 +198,11 @@ def handleCdt (inp out : List String) : String :=
     if !validGeom g then skip "invalid-polygon" else
     if isEmptyG g then skip "empty" else
     let pts := coordsIter g
+    -- `DelaunayTriangulationConfig::default()` snaps vertices closer than `snap_radius = 1e-4` (an absolute length)
+    -- onto each other: polygons whose distinct vertices come that close are outside what the default entry points
+    -- promise (documented snapping), e.g. every polygon at a 2^-27 scale
+    let snap2 : Rat := (1 / 2500 : Rat) * (1 / 2500 : Rat)
+    if pts.any (fun a => pts.any (fun b => a != b && dist2 a b ≤ snap2)) then skip "vertices-within-snap-radius" else
     match hullTarget pts with
     | none => "ERR hull-oracle-failed"
     | some hull =>
